@@ -40,6 +40,33 @@ def simfile_text(tl, version="0.83"):
     return "\n".join(parts) + "\n"
 
 
+SOURCES = ("ssc", "sm", "sm-freezes", "ssc-chart")
+
+
+def timing_data(tl):
+    """the real TimingData for a timeline, through the source kind the timeline names (tl["source"], default "ssc"):
+    an SSC simfile, an SM simfile, an SM simfile that spells its stops FREEZES (the documented alias), or an SSC
+    chart carrying its own timing data beside a simfile whose own values are decoys"""
+    from simfile.sm import SMSimfile
+    from simfile.ssc import SSCSimfile
+    from simfile.timing import TimingData
+
+    src = tl.get("source") or "ssc"
+    text = simfile_text(tl)
+    if src == "ssc":
+        return TimingData(SSCSimfile(string=text))
+    body = text.split("\n", 1)[1]  # without the VERSION line
+    if src == "sm":
+        return TimingData(SMSimfile(string=body))
+    if src == "sm-freezes":
+        return TimingData(SMSimfile(string=body.replace("#STOPS:", "#FREEZES:")))
+    if src == "ssc-chart":
+        decoy = "#VERSION:0.83;\n#OFFSET:9.999;\n#BPMS:0.000=77.000;\n#STOPS:1.000=7.000;\n#DELAYS:2.000=7.000;\n#WARPS:3.000=7.000;\n"
+        sim = SSCSimfile(string=decoy + "#NOTEDATA:;\n" + body + "#NOTES:\n0000\n0000\n0000\n0000\n;\n")
+        return TimingData(sim, sim.charts[0])
+    raise ValueError(src)
+
+
 class Model:
     def __init__(self, tl):
         self.bpms = [(F(k, 48), F(D(v))) for k, v in tl["bpms"]]
@@ -144,11 +171,16 @@ class Model:
             s.add(e)
         return s
 
-    def probe_beats(self, extra=()):
-        """event beats, warp ends, their neighbouring ticks, and a few fixed ones"""
+    def probe_beats(self, extra=(), offgrid=False):
+        """event beats, warp ends, their neighbouring ticks (with offgrid: also the half ticks around them, which lie
+        off the tick grid - negative ones around beat 0 included), and a few fixed ones"""
         p = set()
         for b in self.event_beats():
             p.update((b - TICK, b, b + TICK))
+            if offgrid:
+                p.update((b - TICK / 2, b + TICK / 2))
+        if offgrid:
+            p.update((-TICK / 2, -TICK / 3, TICK / 2))
         p.update((F(-1), F(-3, 2), F(0)))
         last = max(self.event_beats() | {F(0)})
         p.update((last + 1, last + 7))
